@@ -20,7 +20,7 @@ RULE = ('modules with one contracted function g over 6 signature shapes (positio
         'defaults omitted / too many arguments); literals: ints, floats, strings, bytes, None, booleans, nested tuples / lists / sets / dicts; both parser back-ends; '
         'non-trivial = the runtime rejects at least one of the described checks')
 
-SIGS = [('a', ['a']), ('a, b', ['a', 'b']), ('a, b=2', ['a', 'b']), ('a, *, c=3', ['a', 'c']), ('a, b=1, *args', ['a', 'b']), ('a, **kw', ['a'])]
+SIGS = [('a', ['a']), ('a, b', ['a', 'b']), ('a, b=2', ['a', 'b']), ('a, *, c=3', ['a', 'c']), ('a, b=1, *args', ['a', 'b']), ('a, **kw', ['a']), ('a, /, b=1', ['a', 'b']), ('a, b, /', ['a', 'b'])]
 LITS = ['0', '1', '-1', '2', '5', '-3', '0.5', '-1.0', "''", "'x'", "'abc'", "b'ab'", 'None', 'True', 'False', '()', '(1, 2)', "(1, ('a', None))", '[]', '[1, 2, 3]',
         '{1, 2}', "{'k': 1}", '[(1, 2), [3]]', '1.0']
 
@@ -75,6 +75,11 @@ def gen_case(rnd):
             if r < .5: kwargs = {'c': rnd.choice(LITS)}
         elif sig == 'a, b=1, *args':
             args = [rnd.choice(LITS) for _ in range(rnd.randint(1, 4))]
+        elif sig == 'a, /, b=1':
+            args = [rnd.choice(LITS)] if r < .4 else [rnd.choice(LITS), rnd.choice(LITS)]
+            if r < .2: kwargs = {'b': rnd.choice(LITS)}
+        elif sig == 'a, b, /':
+            args = [rnd.choice(LITS), rnd.choice(LITS)]
         else:
             args = [rnd.choice(LITS)]
             if r < .5: kwargs = {'z': rnd.choice(LITS)}
